@@ -468,7 +468,7 @@ def rule_ownrun(ctx):
     thread's own _run_optimizer call."""
     from .c14 import _policy_names
 
-    r = RuleResult("C16-OWNRUN", "'searched' is reported only by the thread that searched", 2)
+    r = RuleResult("C16-OWNRUN", "'searched' is reported only by the thread that searched", 3)
     ro = ctx.p.cls(C.REUSABLE, "ReusableOptimizer")
     f = ro.methods.get("_maybe_run_optimizer")
     C.require(f is not None, "_maybe_run_optimizer not found")
@@ -533,6 +533,38 @@ def rule_ownrun(ctx):
     else:
         r.violation(key, s_.loc, "search() returns last_opt.tree without checking that this "
                     "query searched")
+    # every implementation of _run_optimizer records the sub-optimizer that ran for this
+    # thread on every normal path (search() reads it back through last_opt)
+    if lasts:
+        for c in ctx.p.classes.values():
+            if not c.is_subclass_of(ro):
+                continue
+            m = c.methods.get("_run_optimizer")
+            if m is None:
+                continue
+            fl2 = ctx.flow(m)
+            marks = []
+            for n in fl2.cfg.nodes:
+                if n.kind != "stmt" or n.ast is None:
+                    continue
+                st = n.ast
+                stores = isinstance(st, ast.Assign) and any(
+                    isinstance(t, ast.Subscript) and isinstance(t.value, ast.Attribute)
+                    and t.value.attr == "_suboptimizers" for t in st.targets)
+                delegates = any(isinstance(x, ast.Call) and isinstance(x.func, ast.Attribute)
+                                and x.func.attr == "_run_optimizer" and isinstance(x.func.value, ast.Call)
+                                and dotted(x.func.value.func) == "super" for x in ast.walk(st))
+                if stores or delegates:
+                    marks.append(n.id)
+            key = ctx.key(m, "C16-OWNRUN", "records-suboptimizer")
+            if marks and fl2.cfg.all_paths_pass(fl2.cfg.entry.id, marks):
+                r.ok(key, m.loc, "the sub-optimizer that ran is recorded for this thread on every path")
+            else:
+                pth = fl2.cfg.path_avoiding(fl2.cfg.entry.id, marks) if marks else None
+                r.violation(key, m.loc, "_run_optimizer can return a record without recording the "
+                            "sub-optimizer that produced it for this thread: search() then answers a "
+                            "'searched' query with self.last_opt.tree - the tree of an earlier query",
+                            path=fl2.cfg.describe_path(pth) if pth else "")
     return r
 
 
